@@ -14,6 +14,7 @@
 #include <opentelemetry/sdk/logs/exporter.h>
 #include <opentelemetry/sdk/logs/logger.h>
 #include <opentelemetry/sdk/logs/logger_config.h>
+#include <opentelemetry/sdk/logs/logger_context.h>
 #include <opentelemetry/sdk/logs/logger_provider.h>
 #include <opentelemetry/sdk/logs/read_write_log_record.h>
 #include <opentelemetry/sdk/logs/simple_log_record_processor.h>
@@ -25,7 +26,7 @@
 #include <opentelemetry/sdk/trace/tracer_config.h>
 #include <opentelemetry/sdk/trace/tracer_provider.h>
 
-#include "c19_common.h"
+#include "c19_kinds.h"
 
 namespace {
 using namespace c19;
@@ -34,6 +35,13 @@ namespace sl = opentelemetry::sdk::logs;
 using opentelemetry::sdk::instrumentationscope::InstrumentationScope;
 using opentelemetry::sdk::instrumentationscope::ScopeConfigurator;
 using AttrMap = std::map<std::string, std::string>;
+// ABI v2: GetTracer / GetMeter take scope attributes like GetLogger does (registry entry c19_scopes_abi2)
+#if OPENTELEMETRY_ABI_VERSION_NO >= 2
+constexpr bool kAttrsEverywhere = true;
+#else
+constexpr bool kAttrsEverywhere = false;
+#endif
+bool has_attrs(int signal) { return signal == 2 || kAttrsEverywhere; }
 
 std::string scope_str(const InstrumentationScope &s) {
   std::string a;
@@ -44,7 +52,7 @@ std::string scope_str(const InstrumentationScope &s) {
 }
 
 // ---- harness exporters ----------------------------------------------------------------------------------
-struct Sink { std::vector<std::string> items; };  // "scope-identity#payload"
+struct Sink { std::vector<std::string> items; int recordables_made = 0; };  // "scope-identity#payload"
 class SpanSink : public st::SpanExporter {
  public:
   explicit SpanSink(Sink *s) : s_(s) {}
@@ -65,7 +73,7 @@ class SpanSink : public st::SpanExporter {
 class LogSink : public sl::LogRecordExporter {
  public:
   explicit LogSink(Sink *s) : s_(s) {}
-  std::unique_ptr<sl::Recordable> MakeRecordable() noexcept override { return std::unique_ptr<sl::Recordable>(new sl::ReadWriteLogRecord()); }
+  std::unique_ptr<sl::Recordable> MakeRecordable() noexcept override { ++s_->recordables_made; return std::unique_ptr<sl::Recordable>(new sl::ReadWriteLogRecord()); }
   ot::sdk::common::ExportResult Export(const nostd::span<std::unique_ptr<sl::Recordable>> &recs) noexcept override {
     for (auto &r : recs) {
       auto *d = static_cast<sl::ReadWriteLogRecord *>(r.get());
@@ -86,21 +94,23 @@ class LogSink : public sl::LogRecordExporter {
 struct Ident {
   std::string logger_name;  // loggers only
   std::string name, version, schema;
-  AttrMap attrs;  // loggers only (ABI v1 GetTracer / GetMeter take no attributes)
+  AttrMap attrs;  // loggers only under ABI v1 (GetTracer / GetMeter take no attributes there)
+  bool empty_iterable = false;  // ABI v2 tracers / meters: "no attributes" passed as an empty iterable instead of nullptr (the same identity)
 };
 // what the provider must treat as the identity of a request
 std::string key(int signal, const Ident &i) {
   std::string a;
   for (auto &kv : i.attrs) a += kv.first + "=" + kv.second + ",";
-  if (signal != 2) return i.name + "|" + i.version + "|" + i.schema;
+  if (signal != 2) return i.name + "|" + i.version + "|" + i.schema + (kAttrsEverywhere ? "|" + a : "");
   return i.logger_name + "#" + (i.name.empty() ? i.logger_name : i.name) + "|" + i.version + "|" + i.schema + "|" + a;  // an empty library name defaults to the logger name
 }
 std::string show(int signal, const Ident &i) {
   std::string a;
   for (auto &kv : i.attrs) a += kv.first + "=" + kv.second + ",";
-  return (signal == 2 ? "logger '" + i.logger_name + "' " : std::string()) + "('" + i.name + "','" + i.version + "','" + i.schema + "'" + (signal == 2 ? ",{" + a + "}" : "") + ")";
+  return (signal == 2 ? "logger '" + i.logger_name + "' " : std::string()) + "('" + i.name + "','" + i.version + "','" + i.schema + "'" + (has_attrs(signal) ? ",{" + a + "}" + (signal != 2 && i.attrs.empty() ? (i.empty_iterable ? "(empty iterable)" : "(nullptr)") : "") : "") + ")";
 }
 const char *const kSignal[3] = {"tracer", "meter", "logger"};
+int g_signals = 3;
 
 // ---- one provider of each kind behind a common face -----------------------------------------------------------
 struct Rule { int matcher; bool enable; std::string name; /* matcher 0: the scope name to compare with */ };
@@ -110,7 +120,7 @@ bool rule_matches(const Rule &r, const Ident &i, int signal) {
   switch (r.matcher) {
     case 0: return scope_name_of(i, signal) == r.name;
     case 1: return i.version == "2.0";
-    default: return signal == 2 && i.attrs.count("tier") > 0;
+    default: return has_attrs(signal) && i.attrs.count("tier") > 0;
   }
 }
 bool model_enabled(const std::vector<Rule> &rules, bool dflt, const Ident &i, int signal) {
@@ -143,12 +153,14 @@ struct Fixture {
   std::unique_ptr<st::TracerProvider> tp;
   std::unique_ptr<sm::MeterProvider> mp;
   std::unique_ptr<sl::LoggerProvider> lp;
+  sl::LoggerContext *lctx = nullptr;
   std::shared_ptr<PullReader> reader;
   // handles are kept alive until the fixture dies
   std::vector<nostd::shared_ptr<ot::trace::Tracer>> tracers;
   std::vector<nostd::shared_ptr<mapi::Meter>> meters;
   std::vector<nostd::shared_ptr<ot::logs::Logger>> loggers;
-  std::vector<nostd::unique_ptr<mapi::Counter<uint64_t>>> counters;
+  std::vector<std::unique_ptr<Holder>> instruments;
+  int last_kind = 0;
 
   Fixture(int sig, const std::vector<Rule> &rules, bool dflt) : signal(sig) {
     const auto &res = ot::sdk::resource::Resource::GetEmpty();
@@ -160,29 +172,67 @@ struct Fixture {
       mp.reset(new sm::MeterProvider(std::unique_ptr<sm::ViewRegistry>(new sm::ViewRegistry()), res, build_configurator<sm::MeterConfig>(rules, dflt)));
       reader = std::make_shared<PullReader>();
       mp->AddMetricReader(reader);
-    } else
-      lp.reset(new sl::LoggerProvider(std::unique_ptr<sl::LogRecordProcessor>(new sl::SimpleLogRecordProcessor(std::unique_ptr<sl::LogRecordExporter>(new LogSink(&sink)))), res,
-                                      build_configurator<sl::LoggerConfig>(rules, dflt)));
+    } else {
+      // the provider is built from a context of the harness so that the harness can ask the same pipeline for a
+      // recordable (LoggerContext::GetProcessor) - what an enabled logger of this provider hands out
+      std::vector<std::unique_ptr<sl::LogRecordProcessor>> procs;
+      procs.emplace_back(new sl::SimpleLogRecordProcessor(std::unique_ptr<sl::LogRecordExporter>(new LogSink(&sink))));
+      std::unique_ptr<sl::LoggerContext> ctx(new sl::LoggerContext(std::move(procs), res, build_configurator<sl::LoggerConfig>(rules, dflt)));
+      lctx = ctx.get();
+      lp.reset(new sl::LoggerProvider(std::move(ctx)));
+    }
   }
   // returns the address of the object the provider hands out for this identity
   const void *get(const Ident &i) {
+#if OPENTELEMETRY_ABI_VERSION_NO >= 2
+    ot::common::KeyValueIterableView<AttrMap> view(i.attrs);
+    const ot::common::KeyValueIterable *attrs = i.attrs.empty() && !i.empty_iterable ? nullptr : &view;
+    if (signal == 0) { tracers.push_back(tp->GetTracer(i.name, i.version, i.schema, attrs)); return tracers.back().get(); }
+    if (signal == 1) { meters.push_back(mp->GetMeter(i.name, i.version, i.schema, attrs)); return meters.back().get(); }
+#else
     if (signal == 0) { tracers.push_back(tp->GetTracer(i.name, i.version, i.schema)); return tracers.back().get(); }
     if (signal == 1) { meters.push_back(mp->GetMeter(i.name, i.version, i.schema)); return meters.back().get(); }
+#endif
     loggers.push_back(lp->GetLogger(i.logger_name, i.name, i.version, i.schema, ot::common::KeyValueIterableView<AttrMap>(i.attrs)));
     return loggers.back().get();
   }
-  // one unit of telemetry through the most recently obtained handle
-  void emit(const std::string &tag) {
+  // Telemetry through the most recently obtained handle. Tracer: one span. Meter: one instrument of the given
+  // kind (c19_kinds.h) with one measurement. Logger: one record through each way the SDK logger can be asked to
+  // emit - the enabled checks of Logger::CreateLogRecord and Logger::EmitLogRecord(record) are separate copies:
+  //   <tag>           EmitLogRecord(severity, body)            (API helper: CreateLogRecord + EmitLogRecord(record))
+  //   <tag>.two-step  CreateLogRecord(), fill, EmitLogRecord(record)
+  //   <tag>.foreign   a record this logger did not create (the pipeline's recordable type, as an enabled logger of the
+  //                   same provider would hand out), emitted through this logger: it would carry this logger's scope
+  int recordables_for_own_records = 0;
+  void emit(const std::string &tag, int kind) {
     if (signal == 0) tracers.back()->StartSpan(tag)->End();
-    else if (signal == 1) { counters.push_back(meters.back()->CreateUInt64Counter("c_" + tag, "", "")); counters.back()->Add(1); }
-    else loggers.back()->EmitLogRecord(ot::logs::Severity::kInfo, nostd::string_view(tag));
+    else if (signal == 1) {
+      instruments.emplace_back(new Holder());
+      last_kind = kind;
+      create(kind, *meters.back(), "c_" + tag, "", "", *instruments.back());
+      if (!instruments.back()->null_returned) measure(kind, *instruments.back());
+    } else {
+      auto &lg = loggers.back();
+      const int made0 = sink.recordables_made;
+      lg->EmitLogRecord(ot::logs::Severity::kInfo, nostd::string_view(tag));
+      const std::string t2 = tag + ".two-step", t3 = tag + ".foreign";
+      auto rec = lg->CreateLogRecord();
+      if (rec) { rec->SetSeverity(ot::logs::Severity::kInfo); rec->SetBody(nostd::string_view(t2)); }
+      lg->EmitLogRecord(std::move(rec));
+      recordables_for_own_records = sink.recordables_made - made0;
+      nostd::unique_ptr<ot::logs::LogRecord> foreign(lctx->GetProcessor().MakeRecordable().release());
+      foreign->SetSeverity(ot::logs::Severity::kInfo);
+      foreign->SetBody(nostd::string_view(t3));
+      lg->EmitLogRecord(std::move(foreign));
+    }
   }
   std::vector<std::string> arrived() {
     if (signal != 1) return sink.items;
     std::vector<std::string> out;
     for (auto &s : collect(*reader)) {
-      // scope identity of a metric stream: the reader sees name|version|schema
-      out.push_back(s.scope + "|{}#" + s.name.substr(2) + (s.npoints == 1 && s.points == "{}:1;" ? "" : "!points=" + s.points));
+      // scope identity of a metric stream: the reader sees name|version|schema and the scope attributes
+      const bool exact = s.npoints == 1 && s.points == measured_points(last_kind) && s.type == (int)kKinds[last_kind].type && s.value_type == (int)kKinds[last_kind].vt;
+      out.push_back(s.scope + "|{" + s.scope_attrs + "}#" + s.name.substr(2) + (exact ? "" : vf::sfmt("!type=%d,points=", s.type) + s.points));
     }
     return out;
   }
@@ -195,10 +245,12 @@ const Ident kScopes[4] = {
     {"L2", "x", "2.0", "https://s/2", {}},
     {"L3", "z", "", "", {{"tier", "gold"}}},  // the attribute exists for loggers only; version-less on purpose
 };
-const Ident kScopeZ2 = {"L3", "z", "2.0", "", {}};  // tracers / meters: the fourth scope is told apart by its version
+const Ident kScopeZ2 = {"L3", "z", "2.0", "", {}};  // ABI v1 tracers / meters: the fourth scope is told apart by its version
+const Ident &scope_of(int i, int signal) { return (i == 3 && !has_attrs(signal)) ? kScopeZ2 : kScopes[i]; }
+const char *const kLogVariant[3] = {"", ".two-step", ".foreign"};
 
 void run_configurator(vf::Ctx &c) {
-  int signal = c.pick("signal", 3);
+  int signal = c.pick("signal", g_signals);
   bool dflt = c.pick("default", 2) == 0;
   int maxlen = (int)strtol(c.opt().get("rules", c.thorough() ? "5" : "4").c_str(), nullptr, 10);
   int len = c.pick("rules", maxlen + 1);
@@ -211,6 +263,16 @@ void run_configurator(vf::Ctx &c) {
     desc += std::string(i ? ", " : "") + kMatcher[rules.back().matcher] + rules.back().name + (r % 2 == 0 ? "->enable" : "->disable");
   }
   desc += "]";
+  // meters: the enabled check is a separate copy in every Meter::Create*; the rule list decides the flag once per
+  // meter, so every kind runs against the short lists (both flag values, every scope) and one kind per family
+  // against the next length
+  int kind = 0;
+  if (signal == 1) {
+    const int all_upto = c.thorough() ? 2 : 1;
+    const int nk = len <= all_upto ? kNumKinds : len == all_upto + 1 ? 4 : 1;
+    if (nk > 1) kind = c.pick("kind", nk);
+    desc += std::string(", instruments Create") + kKinds[kind].label;
+  }
   c.stage("build-provider");
   Fixture fx(signal, rules, dflt);
   c.step();
@@ -218,15 +280,19 @@ void run_configurator(vf::Ctx &c) {
   std::vector<const void *> first;
   c.stage("emit");
   for (int i = 0; i < 4; ++i) {
-    const Ident &id = (i == 3 && signal != 2) ? kScopeZ2 : kScopes[i];
+    const Ident &id = scope_of(i, signal);
     first.push_back(fx.get(id));
-    fx.emit(vf::sfmt("t%d", i));
+    fx.emit(vf::sfmt("t%d", i), kind);
     c.step();
-    if (model_enabled(rules, dflt, id, signal)) {
+    const bool en = model_enabled(rules, dflt, id, signal);
+    if (en) {
       std::string a;
       for (auto &kv : id.attrs) a += (a.empty() ? "" : ",") + kv.first + "=" + kv.second;
-      want.push_back(id.name + "|" + id.version + "|" + id.schema + "|{" + (signal == 2 ? a : "") + "}#" + vf::sfmt("t%d", i));
+      for (int v = 0; v < (signal == 2 ? 3 : 1); ++v)
+        want.push_back(id.name + "|" + id.version + "|" + id.schema + "|{" + (has_attrs(signal) ? a : "") + "}#" + vf::sfmt("t%d", i) + kLogVariant[v]);
     }
+    // not telemetry, hence only counted: a disabled logger that still asks the pipeline for a recordable
+    if (signal == 2 && !en && fx.recordables_for_own_records) c.counted("disabled-logger:recordable-requested-from-pipeline");
   }
   c.stage("collect");
   std::vector<std::string> got = fx.arrived();
@@ -246,14 +312,28 @@ void run_configurator(vf::Ctx &c) {
       }
       bool tag_wanted = false;
       for (auto &x : want) tag_wanted |= tag(x) == tag(got[i]);
-      c.fail(std::string("C19:scope:") + kSignal[signal] + (tag_wanted ? ":wrong-scope-identity" : ":disabled-scope-produced-telemetry"), ctx);
+      // which way of emitting got through (loggers), which instrument kind (meters)
+      std::string how;
+      if (signal == 2 && got[i].size() > 9 && got[i].compare(got[i].size() - 9, 9, ".two-step") == 0) how = ":two-step";
+      if (signal == 2 && got[i].size() > 8 && got[i].compare(got[i].size() - 8, 8, ".foreign") == 0) how = ":record-made-elsewhere";
+      if (signal == 1 && kind != 0) how = std::string(":") + kKinds[kind].label;
+      c.fail(std::string("C19:scope:") + kSignal[signal] + (tag_wanted ? ":wrong-scope-identity" : ":disabled-scope-produced-telemetry" + how), ctx);
     }
-    c.fail(std::string("C19:scope:") + kSignal[signal] + ":enabled-scope-lost-telemetry", ctx);
+    std::string how;
+    if (signal == 1 && kind != 0) how = std::string(":") + kKinds[kind].label;
+    if (signal == 2)
+      for (auto &x : want)
+        if (!std::binary_search(got.begin(), got.end(), x)) {
+          if (x.size() > 9 && x.compare(x.size() - 9, 9, ".two-step") == 0) how = ":two-step";
+          if (x.size() > 8 && x.compare(x.size() - 8, 8, ".foreign") == 0) how = ":record-made-elsewhere";
+          break;
+        }
+    c.fail(std::string("C19:scope:") + kSignal[signal] + ":enabled-scope-lost-telemetry" + how, ctx);
   }
   // the configuration is computed once per scope: asking again gives the same object, in the same state
   c.stage("re-request");
   for (int i = 0; i < 4; ++i) {
-    const Ident &id = (i == 3 && signal != 2) ? kScopeZ2 : kScopes[i];
+    const Ident &id = scope_of(i, signal);
     const void *again = fx.get(id);
     if (again != first[i]) {
       bool en = model_enabled(rules, dflt, id, signal);
@@ -263,8 +343,8 @@ void run_configurator(vf::Ctx &c) {
         c.fail(std::string("C19:identity:") + kSignal[signal] + ":same-request-different-object", desc + ": second request for " + show(signal, id) + " returned another object");
     }
   }
-  c.state(desc.substr(0, desc.find(',')) + "|" + g);
-  c.outcome(std::string(kSignal[signal]) + "|" + g);
+  c.state(desc.substr(0, desc.find(',')) + vf::sfmt("|k%d|", kind) + g);
+  c.outcome(std::string(kSignal[signal]) + vf::sfmt("|k%d|", kind) + g);
   if (len <= 1 || c.tracing()) c.sample(desc + " => {" + g + "}");
 }
 
@@ -274,13 +354,21 @@ void setup(vf::Options &o) {
   o.split_depth = 3;
   o.deadline_s = o.thorough ? 900 : 100;
   quiet_sdk_log();
+  g_signals = (int)strtol(o.get("signals", "3").c_str(), nullptr, 10);  // c19_scopes_abi2: tracers and meters only (the logger code does not depend on the ABI version)
+  std::vector<AttrMap> attrs = {{}, {{"k", "1"}}, {{"k", "2"}}, {{"j", "1"}}};
   for (const char *n : {"a", "b"})
     for (const char *v : {"", "1"})
       for (const char *s : {"", "u"}) {
-        g_ids[0].push_back({"", n, v, s, {}});
-        g_ids[1].push_back({"", n, v, s, {}});
+        if (!kAttrsEverywhere) {
+          g_ids[0].push_back({"", n, v, s, {}});
+          g_ids[1].push_back({"", n, v, s, {}});
+          continue;
+        }
+        for (int sig = 0; sig < 2; ++sig) {
+          for (auto &a : attrs) g_ids[sig].push_back({"", n, v, s, a});
+          g_ids[sig].push_back({"", n, v, s, {}, true});  // no attributes, handed over as an empty iterable
+        }
       }
-  std::vector<AttrMap> attrs = {{}, {{"k", "1"}}, {{"k", "2"}}, {{"j", "1"}}};
   if (o.thorough) attrs.push_back({{"j", "1"}, {"k", "1"}});
   for (const char *ln : {"a", "L"})
     for (const char *n : {"", "a", "b"})
@@ -290,7 +378,7 @@ void setup(vf::Options &o) {
 }
 
 void run_identity(vf::Ctx &c) {
-  int signal = c.pick("signal", 3);
+  int signal = c.pick("signal", g_signals);
   int mode = c.pick("configurator", 3);  // 0: everything enabled, 1: scope name "a" disabled, 2: everything disabled
   std::vector<Rule> rules;
   if (mode == 1) rules.push_back({0, false, "a"});
@@ -324,12 +412,18 @@ void run_identity(vf::Ctx &c) {
     for (auto &kv : r1.attrs) a += (a.empty() ? "" : ",") + kv.first + "=" + kv.second;
     std::string want = (r1.name.empty() ? r1.logger_name : r1.name) + "|" + r1.version + "|" + r1.schema + "|{" + a + "}";
     c.check(scope_str(lg->GetInstrumentationScope()) == want, "C19:identity:logger:scope-differs", desc + ": logger scope is " + scope_str(lg->GetInstrumentationScope()));
-  } else if (signal == 0) {
-    auto *tr = static_cast<st::Tracer *>(fx->tracers[0].get());
-    c.check(scope_str(tr->GetInstrumentationScope()) == r1.name + "|" + r1.version + "|" + r1.schema + "|{}", "C19:identity:tracer:scope-differs", desc + ": tracer scope is " + scope_str(tr->GetInstrumentationScope()));
   } else {
-    auto *mt = static_cast<sm::Meter *>(fx->meters[0].get());
-    c.check(scope_str(*mt->GetInstrumentationScope()) == r1.name + "|" + r1.version + "|" + r1.schema + "|{}", "C19:identity:meter:scope-differs", desc + ": meter scope is " + scope_str(*mt->GetInstrumentationScope()));
+    std::string a;
+    if (kAttrsEverywhere)
+      for (auto &kv : r1.attrs) a += (a.empty() ? "" : ",") + kv.first + "=" + kv.second;
+    const std::string want = r1.name + "|" + r1.version + "|" + r1.schema + "|{" + a + "}";
+    if (signal == 0) {
+      auto *tr = static_cast<st::Tracer *>(fx->tracers[0].get());
+      c.check(scope_str(tr->GetInstrumentationScope()) == want, "C19:identity:tracer:scope-differs", desc + ": tracer scope is " + scope_str(tr->GetInstrumentationScope()));
+    } else {
+      auto *mt = static_cast<sm::Meter *>(fx->meters[0].get());
+      c.check(scope_str(*mt->GetInstrumentationScope()) == want, "C19:identity:meter:scope-differs", desc + ": meter scope is " + scope_str(*mt->GetInstrumentationScope()));
+    }
   }
   c.state(vf::sfmt("%d|%d|%d|%d|%d|", signal, mode, (int)(p1 == p2), (int)(p1 == p3), (int)(p2 == p4)) + key(signal, r1) + "||" + key(signal, r2));
   c.outcome(vf::sfmt("%d|%d|%d|%d|%d|%d", signal, mode, (int)(p1 == p2), (int)(p1 == p3), (int)(p2 == p4), (int)known_gap));
